@@ -239,7 +239,7 @@ func init() {
 		}
 		path := rs.paths[int(in[0])%len(rs.paths)]
 		be := backend.NewInMemory()
-		if err := be.Put(path+".keyring", append([]byte{}, in[1:]...)); err != nil {
+		if err := be.Put(path+".keyring", dup(in[1:])); err != nil {
 			return fmt.Errorf("harness: %w", err)
 		}
 		ks, err := fsV2.CustomKeyStore(be, suite)
@@ -493,7 +493,7 @@ func init() {
 					return err
 				}
 			}
-			v1.ks, err = ksrig.V1(v1.dir, append([]byte{}, masterKey...), keystore.WithoutCache)
+			v1.ks, err = ksrig.V1(v1.dir, dup(masterKey), keystore.WithoutCache)
 			return err
 		},
 		run: func(in []byte) error {
@@ -560,8 +560,8 @@ func init() {
 				if b == nil {
 					panic(fmt.Sprintf("no export bundle of the fresh keystore; files: %v", listKeyFiles(w.dir)))
 				}
-				st := &bundleState{bundle: mkBundle("bundle", b.Keys, b.Data), keys: append([]byte{}, b.Keys...)}
-				dec, _ := keystore.NewSCellKeyEncryptor(append([]byte{}, b.Keys...))
+				st := &bundleState{bundle: mkBundle("bundle", b.Keys, b.Data), keys: dup(b.Keys)}
+				dec, _ := keystore.NewSCellKeyEncryptor(dup(b.Keys))
 				if plain, err := dec.Decrypt(context.Background(), b.Data, keystore.NewEmptyKeyContext(nil)); err == nil {
 					st.plain = plain
 				}
@@ -572,12 +572,12 @@ func init() {
 		gen: func(g *gen.Rand, sti interface{}, i int) ([]byte, string, string) {
 			st := sti.(*bundleState)
 			if i == 0 {
-				return append([]byte{}, st.bundle.b...), "valid:bundle", ""
+				return dup(st.bundle.b), "valid:bundle", ""
 			}
 			if st.plain != nil && g.Intn(2) == 0 {
 				// gob level: mutate the decrypted key list and encrypt it again under the bundle key
 				mb, c, d := mutate(g, art{kind: "bundle-gob", b: st.plain})
-				enc, _ := keystore.NewSCellKeyEncryptor(append([]byte{}, st.keys...))
+				enc, _ := keystore.NewSCellKeyEncryptor(dup(st.keys))
 				data, err := enc.Encrypt(context.Background(), mb, keystore.NewEmptyKeyContext(nil))
 				if err == nil {
 					return mkBundle("bundle", st.keys, data).b, "reencrypted:" + c, d
@@ -591,7 +591,7 @@ func init() {
 				return err
 			}
 			v1sink = &sinkStorage{}
-			enc, _ := keystore.NewSCellKeyEncryptor(append([]byte{}, masterKey...))
+			enc, _ := keystore.NewSCellKeyEncryptor(dup(masterKey))
 			v1backuper, err = filesystem.NewKeyBackuper(w.dir, w.dir, v1sink, enc, w.ks)
 			return err
 		},
@@ -603,7 +603,7 @@ func init() {
 			if kl > len(in)-1 {
 				kl = len(in) - 1
 			}
-			_, err := v1backuper.Import(&keystore.KeysBackup{Keys: append([]byte{}, in[1:1+kl]...), Data: append([]byte{}, in[1+kl:]...)})
+			_, err := v1backuper.Import(&keystore.KeysBackup{Keys: dup(in[1:1+kl]), Data: dup(in[1+kl:])})
 			return err
 		}})
 }
